@@ -50,6 +50,12 @@ def followup(stage, lines, model, checked, release, tier, rng):
                     a = K.api_sign(s, sk, msg, ctx) if ph is None else K.api_prehash_sign(s, sk, msg, ctx, 0, ph)
                     _st.setdefault("api", []).append(dict(set=s, ctx=ctx, msg=msg, ph=ph, pk=pk, sk=sk, req=a))
                     L.append(a)
+                # no context / empty context, short messages, a message that ends in zero bytes: the framing of the
+                # message (0 || |ctx| || ctx || M) is the only thing between M and M || 00
+                for (c2, m2) in ((None, b"pay 10 to bob"), (None, b"pay 10 to bob\x00\x00"), (b"", b"x\x00"), (None, b""), (None, R(61) + b"\x00")):
+                    a = K.api_sign(s, sk, m2, c2)
+                    _st.setdefault("api", []).append(dict(set=s, ctx=c2, msg=m2, ph=None, pk=pk, sk=sk, req=a))
+                    L.append(a)
             else:
                 msg = b"pay 10 to bob"
                 a = K.api_sign(s, sk, msg)
@@ -96,20 +102,31 @@ def followup(stage, lines, model, checked, release, tier, rng):
             dil = e.get("dil", False)
             if dil:
                 VS = lambda sg: K.api_verify(s, pk, msg, sg)
-                e["neg"] = []
+                e["neg"] = [K.api_verify(s, pk, msg + bytes(k2), sig) for k2 in (1, 2, 8, 51, 100)] + [K.api_verify(s, pk, msg[:-1], sig)]
             else:
                 V = lambda m, c, h: K.api_verify(s, pk, m, sig, c) if h is None else K.api_prehash_verify(s, pk, m, sig, c, h)
                 VS = lambda sg: K.api_verify(s, pk, msg, sg, ctx) if ph is None else K.api_prehash_verify(s, pk, msg, sg, ctx, ph)
-                alts = [(ctx[-1:] + msg, ctx[:-1], ph), (msg[1:], ctx + msg[:1], ph), (ctx + msg, None, ph), (ctx + msg, b"", ph),
+                alts = [] if (ctx is None or len(ctx) < 2) else [(ctx[-1:] + msg, ctx[:-1], ph), (msg[1:], ctx + msg[:1], ph), (ctx + msg, None, ph), (ctx + msg, b"", ph),
                         (msg, None, ph), (msg, b"", ph), (msg, ctx + b"\x00", ph), (msg, ctx[:-1], ph), (msg + b"\x00", ctx, ph),
                         (msg, ctx, "sha512" if ph == "sha256" else "sha256"), (msg, ctx, None if ph else "sha512")]
+                if ctx is None or len(ctx) < 2:
+                    alts = [(msg, b"c", ph), (msg + b"\x00", ctx, ph), (msg, ctx, "sha256")]      # (no context = empty context: not an alteration)
+                    if msg:
+                        alts += [(msg[1:], msg[:1], ph), (msg[:-1], ctx, ph)]
+                # the message extended by zero bytes (up to and across 64- and 136-byte boundaries) / with trailing zeros removed
+                for k2 in (1, 2, 3, 8, 62 - len(msg) - 1, 62 - len(msg), 62 - len(msg) + 1, 64 - len(msg), 100, 136):
+                    if k2 > 0:
+                        alts.append((msg + bytes(k2), ctx, ph))
+                m3 = msg
+                while m3.endswith(b"\x00"):
+                    m3 = m3[:-1]; alts.append((m3, ctx, ph))
                 e["neg"] = [V(m, c, h) for (m, c, h) in alts]
             e["pos"] = VS(sig)
             # alterations of the signature through every API entry point (each has its own length gate): extended by one
             # byte, by the message (sig || msg), by 100 bytes; truncated; single bits flipped in c~, z, the hint section
             p = S.P(s)
             sb = bytearray(bytes.fromhex(sig))
-            sigalts = [sig + "00", sig + "ff", sig + msg.hex(), sig + "00" * 100, sig[:-2], sig[2:], ""]
+            sigalts = [sig + "00", sig + "ff", sig + (msg.hex() or "a5"), sig + "00" * 100, sig[:-2], sig[2:], ""]
             for pos in (0, 8 * p.ctilde + 3, 8 * (p.sig - p.omega - p.k) + 1, 8 * p.sig - 1, rng.randrange(8 * p.sig)):
                 w = bytearray(sb); w[pos // 8] ^= 1 << (pos % 8)
                 sigalts.append(w.hex())
@@ -151,7 +168,8 @@ def violated_all(lines, model, checked, release):
             if v in idx:
                 for prof, ans in (("checked", checked), ("wrapping", release)):
                     if ans[idx[v]] != "ok false":
-                        out.append((idx[v], "%s build: altered data was not rejected: %s -> %s" % (prof, v.split()[0], ans[idx[v]])))
+                        out.append((idx[v], "%s build: altered data was not rejected: %s -> %s (the signature was made for message %s, context %s, mode %s)" % (
+                            prof, v.split()[0], ans[idx[v]], K.hx(e["msg"]), K.ctxs(e.get("ctx")), e.get("ph") or "pure")))
         for key in ("pos", "pos2"):
             if key in e and e[key] in idx and checked[idx[e[key]]] != "ok true":
                 out.append((idx[e[key]], "the unaltered signature does not verify (%s)" % e[key].replace("@impl ", "").split()[0]))
